@@ -331,6 +331,12 @@ def utf8_reps():
             reps.append(bytes([lead, second, 0x80, 0xBF]).decode())
     reps += ["\u007f", "\u0080", "\u07ff", "\u0800", "\ud7ff", "\ue000", "\uf000", "\uf8ff", "\ufeff", "\uff01", "\ufffd", "\uffff",
              "\U00010000", "\U000e0001", "\U000e0020", "\U000e0065", "\U000e007e", "\U000e007f", "\U000f0000", "\U0010ffff"]
+    # characters that text-processing code singles out: whitespace and controls, joiners and other zero-width / bidi format
+    # characters, combining marks, variation selectors, emoji modifiers and regional indicators, separators, keycap
+    reps += [" ", "\t", "\n", "\r", "\u0000", "\u0085", "\u009f", "\u00a0", "\u00ad", "\u0300", "\u0301", "\u036f", "\u061c", "\u180e",
+             "\u200b", "\u200c", "\u200d", "\u200e", "\u200f", "\u2028", "\u2029", "\u202a", "\u202e", "\u2060", "\u2066", "\u2069",
+             "\u20e3", "\u3000", "\ufe00", "\ufe0e", "\ufe0f", "\ufff9", "\ufffc", "\U0001f1e6", "\U0001f1ff", "\U0001f3fb", "\U0001f3ff",
+             "\U000e0100", "\U000e01ef", "\U0001f468", "\U0001f600"]
     return reps
 
 
